@@ -4,7 +4,7 @@
 (* and operators without operands; ids explicit / zero / duplicate.                        *)
 EXTENDS UpdogRPC, Json
 CONSTANTS MaxBatch, MaxReqs, Emit
-Rows == <<(1 :> 1 @@ 2 :> 1), (1 :> 1 @@ 2 :> 2), (1 :> 2), (2 :> 2), <<>>>>
+Rows == <<(1 :> 1 @@ 2 :> 1), (1 :> 1 @@ 2 :> 2), (1 :> 2), (2 :> 2), <<>>, (1 :> 2 @@ 2 :> 1)>>
 EQ(c, v) == [op |-> "eq", col |-> c, val |-> v]
 H == [op |-> "hole"]
 NOTe(x) == [op |-> "not", e |-> x]
